@@ -323,7 +323,7 @@ func vC15Gen(e *vEnv, r *vRand) []vCase {
 		cases = append(cases, vCase{Ops: ops})
 	}
 
-	n := e.scale(50, 400)
+	n := e.scale(120, 400)
 	for i := 0; i < n; i++ {
 		rr := r.fork()
 		ka, kb := vc15KeyPair(rr)
@@ -365,7 +365,7 @@ func vC15Gen(e *vEnv, r *vRand) []vCase {
 	}
 
 	// ids forged by a key holder from odd attributes
-	nf := e.scale(30, 300)
+	nf := e.scale(80, 300)
 	for i := 0; i < nf; i++ {
 		rr := r.fork()
 		ka, kb := vc15KeyPair(rr)
@@ -452,7 +452,7 @@ func vC15Gen(e *vEnv, r *vRand) []vCase {
 	}
 
 	// hub: register, decode through the cache, invalidate
-	nh := e.scale(30, 300)
+	nh := e.scale(80, 300)
 	for i := 0; i < nh; i++ {
 		rr := r.fork()
 		ka, kb := vc15KeyPair(rr)
